@@ -2,6 +2,7 @@
 import json
 import os
 import random
+import re
 import subprocess
 from concurrent.futures import ThreadPoolExecutor
 
@@ -80,6 +81,193 @@ def once_register(run, case, setting, sets, uses, in_force, default, fmt=lambda 
                   observed={'in_force': w, 'first_candidates': cands, 'default_admissible': default_ok})
 
 
+def judge(run, case, out, focus, winners, engine):
+    """the oracle over one recorded race history (native, Miri or ThreadSanitizer execution)"""
+    plan = case['plan']
+    evs = [e for e in out['events'] if 'o' in e]
+    if any('thread_panicked' in e for e in out['events']):
+        run.violation('thread-panicked-during-race', 'a thread panicked while setting/using a process-wide setting', case, observed=out['events'])
+        return
+    order = tuple(e['t'] for e in sorted(evs, key=lambda e: e['t_ret']))[:6]
+    conflicting = len(set(json.dumps(e['proposed']) for e in evs if e['o'].startswith('set'))) > 1
+    run.eval((engine, focus, len(plan['threads']), order), conflicting)
+    run.hist('trials_by_focus', focus)
+    run.hist('histories_by_engine', engine)
+    if len(run.samples) < 4:
+        run.sample({'focus': focus, 'threads': len(plan['threads']), 'events': evs[:8], 'limit_in_force': out['limit_in_force'], 'peek': out['peek']})
+    obs = out['observations']
+    # observations after the race never change
+    if any(json.dumps(o, sort_keys=True) != json.dumps(obs[0], sort_keys=True) for o in obs[1:]):
+        run.violation('setting-changed-after-the-race', 'repeated observations after the race differ', case, observed=obs)
+        return
+    # ---- limit
+    sets = [(e['proposed'], e['ret'], e['t_call'], e['t_ret']) for e in evs if e['o'] == 'set_limit']
+    uses = [(e['t_call'], e['t_ret']) for e in evs if e['o'] == 'use_limit']
+    w = obs[0]['limit']
+    # the sweep and the probes run after the race and initialise the cell if nobody did: that is a "use"
+    once_register(run, case, 'max_allocation_bytes', sets, uses + [(10 ** 18, 10 ** 18 + 1)], w, DEFAULT_L)
+    pk = out['peek']
+    if pk and (sets or uses) and pk['limit'] is not None and pk['limit'] != w:
+        run.violation('peek-differs-from-reported setting=max_allocation_bytes', 'the cell holds %r but callers are told %r' % (pk['limit'], w), case)
+    if sets:
+        win = [t for t, e in enumerate(evs) if e['o'] == 'set_limit' and e['proposed'] == w]
+        winners.setdefault('limit', {}).setdefault(str(sorted(set(evs[i]['t'] for i in win))[:1]), 0)
+        winners['limit'][str(sorted(set(evs[i]['t'] for i in win))[:1])] += 1
+    # ---- human readable: asking for true returns v, asking for false returns v
+    sets = [(e['proposed'], e['ret'], e['t_call'], e['t_ret']) for e in evs if e['o'] == 'set_hr']
+    # building a datum reader reads the human-readable default: use_limit is a use of this setting too
+    uses = [(e['t_call'], e['t_ret']) for e in evs if e['o'] in ('use_hr', 'use_limit')]
+    hr_t, hr_f = obs[0]['hr_when_asked_true'], obs[0]['hr_when_asked_false']
+    if True:
+        if hr_t != hr_f:
+            run.violation('human-readable-flag-not-fixed', 'after the race the setter returns its own argument', case, observed=obs[0])
+        else:
+            once_register(run, case, 'serde_human_readable', sets, uses + [(10 ** 18, 10 ** 18 + 1)], hr_t, False)
+    # ---- validators and comparator: exactly one setter told Ok unless a use preceded all of them
+    for which in ('name', 'namespace', 'symbol', 'field', 'comparator'):
+        if which == 'comparator':
+            ss = [e for e in evs if e['o'] == 'set_comparator']
+            us = [e for e in evs if e['o'] == 'use_comparator']
+            inforce = obs[0]['comparators_matching_probe']
+        else:
+            ss = [e for e in evs if e['o'] == 'set_validator' and e.get('which') == which]
+            us = [e for e in evs if e['o'] == 'use_validators']
+            inforce = obs[0]['validators_accepting_probe'][which]
+        if not ss:
+            if inforce:
+                run.violation('validator-in-force-nobody-set which=%s' % which, 'a custom %s is in force although nobody registered one' % which, case, observed=inforce)
+            continue
+        oks = [e for e in ss if e['ret'] is True]
+        first_ret = min(e['t_ret'] for e in ss + us)
+        use_could_be_first = any(e['t_call'] <= first_ret for e in us)
+        if len(oks) > 1:
+            run.violation('two-setters-told-ok which=%s' % which, 'two registrations of the write-once %s both reported success' % which, case, observed=[e['t'] for e in oks])
+        elif len(oks) == 0 and not use_could_be_first:
+            run.violation('no-setter-won which=%s' % which, 'every registration failed although no use could have initialised the default first', case)
+        elif len(oks) == 1:
+            wt = oks[0]['t']
+            if inforce != [wt]:
+                run.violation('winner-not-in-force which=%s' % which, 'thread %d was told its %s is registered, but the one in force accepts probes of %r' % (wt, which, inforce), case)
+            if oks[0]['t_call'] > first_ret:
+                run.violation('winner-not-a-first-call which=%s' % which, 'the registration that won was invoked after another call had already returned', case)
+            winners.setdefault(which, {}).setdefault(str(wt), 0)
+            winners[which][str(wt)] += 1
+        elif inforce:
+            run.violation('validator-in-force-but-no-setter-told-ok which=%s' % which, 'a custom %s is in force, yet every registration reported failure' % which, case, observed=inforce)
+    # ---- uniformity sweep: accepted iff declared <= w
+    wlim = 2 ** 64 - 1 if out['limit_is_usize_max'] else out['limit_in_force']
+    for s in out['sweep']:
+        run.count('guard_probes')
+        g, d, r = s['guard'], s['declared'], s['r']
+        if r.startswith('panic'):
+            run.violation('guard-panics guard=%s' % g.replace('-overflow', ''), 'a guard probe panicked (%s) at limit %d' % (r, wlim), dict(case, probe=s))
+            continue
+        if g.endswith('-overflow'):
+            if r == 'ok':
+                run.violation('overflowing-count-accepted guard=%s' % g, 'an element count whose byte size overflows was accepted', dict(case, probe=s))
+            continue
+        accepted = r != 'limit'
+        if d > 2 ** 63 - 1:
+            # no allocator can provide more than isize::MAX bytes: an error of either kind is right, only a panic is wrong
+            run.count('guard_probes_beyond_isize_max')
+            continue
+        if d <= wlim and not accepted:
+            run.violation('guard-rejects-length-within-limit guard=%s' % g, 'declared %d <= limit %d was rejected' % (d, wlim), dict(case, probe=s, limit=wlim))
+        elif d > wlim and accepted:
+            run.violation('guard-accepts-length-above-limit guard=%s' % g, 'declared %d > limit %d passed the guard (%s)' % (d, wlim, r), dict(case, probe=s, limit=wlim))
+        run.hist('guards_probed', g)
+    run.hist('limits_in_force', 'default' if wlim == DEFAULT_L else 'usize::MAX' if wlim == 2 ** 64 - 1 else str(wlim))
+
+
+def sanitizer_stages(run, rng, winners):
+    """the same race binary under Miri (data-race + UB detection, many scheduler seeds; every history also goes
+    through the oracle) and under ThreadSanitizer (std rebuilt with -Zbuild-std)"""
+    from .. import sanitizers
+    n_plans = int(os.environ.get('VERIF_MIRI_PLANS', '12'))
+    seeds = os.environ.get('VERIF_MIRI_SEEDS', '0..16')
+    plans = []
+    for i in range(n_plans):
+        focus = ['limit', 'hr', 'validators', 'comparator', 'mix', 'mix'][i % 6]
+        p = make_plan(rng, [2, 3, 4, 6][i % 4], focus)
+        p['sweep'] = False
+        # small limits only: the guard sweep is off and the probes stay cheap under the interpreter
+        for t in p['threads']:
+            for op in t:
+                if op['o'] == 'set_limit':
+                    op['v'] = rng.choice([0, 1, 1000, 4096, 65536])
+        plans.append((focus, p))
+
+    def one(a):
+        i, (focus, p) = a
+        wd = os.path.join(run.workdir, 'mr%d' % i)
+        os.makedirs(wd, exist_ok=True)
+
+        class R:
+            workdir = wd
+        return focus, p, sanitizers.miri_race(R, p, seeds=seeds)
+    with ThreadPoolExecutor(max_workers=6) as ex:
+        res = list(ex.map(one, enumerate(plans)))
+    for focus, p, (outs, report) in res:
+        case = {'plan': p, 'focus': focus, 'engine': 'miri', 'seeds': seeds}
+        if report == 'timeout':
+            run.inconc('a Miri race run exceeded its watchdog')
+            continue
+        if report and report.startswith('rc='):
+            run.inconc('Miri race run ended abnormally: %s' % report[:300])
+            continue
+        if report:
+            run.violation('miri-report %s' % sanitizers._miri_kind(report), 'Miri reported during the race: %s' % report[:600], case, observed=report)
+        for out in outs:
+            if 'events' in out:
+                run.count('miri_race_histories')
+                judge(run, case, out, focus, winners, 'miri')
+    if not run.cov.get('miri_race_histories'):
+        run.inconc('the Miri stage produced no race history')
+    # ---- ThreadSanitizer
+    binary, err = sanitizers.tsan_build(run)
+    if binary is None:
+        run.inconc('ThreadSanitizer build failed: %s' % (err or '')[-300:])
+        return
+    n_tsan = int(os.environ.get('VERIF_TSAN_TRIALS', '200'))
+    tplans = []
+    for i in range(n_tsan):
+        focus = ['limit', 'hr', 'validators', 'comparator', 'mix', 'mix'][i % 6]
+        p = make_plan(rng, [4, 8, 16][i % 3], focus)
+        p['heavy'] = False
+        for t in p['threads']:
+            for op in t:
+                if op['o'] == 'set_limit' and op['v'] > (1 << 20):
+                    op['v'] = rng.choice([0, 1, 1000, 4096, 65536, 1 << 20])
+        tplans.append((focus, p))
+
+    def tone(a):
+        i, (focus, p) = a
+        try:
+            return focus, p, sanitizers.tsan_race(run, binary, p, i)
+        except subprocess.TimeoutExpired:
+            return focus, p, (None, 'timeout', None)
+    with ThreadPoolExecutor(max_workers=8) as ex:
+        tres = list(ex.map(tone, enumerate(tplans)))
+    seen = set()
+    for focus, p, (rc, reports, out) in tres:
+        case = {'plan': p, 'focus': focus, 'engine': 'tsan'}
+        if reports == 'timeout':
+            run.inconc('a ThreadSanitizer trial exceeded its watchdog')
+            continue
+        run.count('tsan_trials')
+        for kind, body in reports:
+            frames = [f for f in re.findall(r'#\d+ (\S+)', body) if 'avmon' not in f and not f.startswith('__tsan')]
+            key = (kind.split(' (')[0], tuple(frames[:2]))
+            if key in seen:
+                continue
+            seen.add(key)
+            run.violation('tsan-report kind=%s at=%s' % (key[0].replace(' ', '-'), (frames[0] if frames else '?')[:80]), 'ThreadSanitizer: %s' % kind, case, observed=body)
+        if out is not None and 'events' in out:
+            judge(run, case, out, focus, winners, 'tsan')
+        elif rc not in (0, 66):
+            run.inconc('ThreadSanitizer trial ended with rc=%s' % rc)
+
+
 def check(run, replay_case=None):
     n_trials = 320 if run.quick() else 6000
     run.rule = ('fresh process per trial; N in {2,4,8,16} threads released by a spin barrier with 0-2 us jitter; each thread performs 1-3 first-time set/use operations on one '
@@ -114,98 +302,9 @@ def check(run, replay_case=None):
             else:
                 run.inconc('race trial failed: %s' % err)
             continue
-        evs = [e for e in out['events'] if 'o' in e]
-        if any('thread_panicked' in e for e in out['events']):
-            run.violation('thread-panicked-during-race', 'a thread panicked while setting/using a process-wide setting', case, observed=out['events'])
-            continue
-        order = tuple(e['t'] for e in sorted(evs, key=lambda e: e['t_ret']))[:6]
-        conflicting = len(set(json.dumps(e['proposed']) for e in evs if e['o'].startswith('set'))) > 1
-        run.eval((focus, len(plan['threads']), order), conflicting)
-        run.hist('trials_by_focus', focus)
-        if len(run.samples) < 4:
-            run.sample({'focus': focus, 'threads': len(plan['threads']), 'events': evs[:8], 'limit_in_force': out['limit_in_force'], 'peek': out['peek']})
-        obs = out['observations']
-        # observations after the race never change
-        if any(json.dumps(o, sort_keys=True) != json.dumps(obs[0], sort_keys=True) for o in obs[1:]):
-            run.violation('setting-changed-after-the-race', 'repeated observations after the race differ', case, observed=obs)
-            continue
-        # ---- limit
-        sets = [(e['proposed'], e['ret'], e['t_call'], e['t_ret']) for e in evs if e['o'] == 'set_limit']
-        uses = [(e['t_call'], e['t_ret']) for e in evs if e['o'] == 'use_limit']
-        w = obs[0]['limit']
-        # the sweep and the probes run after the race and initialise the cell if nobody did: that is a "use"
-        once_register(run, case, 'max_allocation_bytes', sets, uses + [(10 ** 18, 10 ** 18 + 1)], w, DEFAULT_L)
-        pk = out['peek']
-        if pk and (sets or uses) and pk['limit'] is not None and pk['limit'] != w:
-            run.violation('peek-differs-from-reported setting=max_allocation_bytes', 'the cell holds %r but callers are told %r' % (pk['limit'], w), case)
-        if sets:
-            win = [t for t, e in enumerate(evs) if e['o'] == 'set_limit' and e['proposed'] == w]
-            winners.setdefault('limit', {}).setdefault(str(sorted(set(evs[i]['t'] for i in win))[:1]), 0)
-            winners['limit'][str(sorted(set(evs[i]['t'] for i in win))[:1])] += 1
-        # ---- human readable: asking for true returns v, asking for false returns v
-        sets = [(e['proposed'], e['ret'], e['t_call'], e['t_ret']) for e in evs if e['o'] == 'set_hr']
-        # building a datum reader reads the human-readable default: use_limit is a use of this setting too
-        uses = [(e['t_call'], e['t_ret']) for e in evs if e['o'] in ('use_hr', 'use_limit')]
-        hr_t, hr_f = obs[0]['hr_when_asked_true'], obs[0]['hr_when_asked_false']
-        if True:
-            if hr_t != hr_f:
-                run.violation('human-readable-flag-not-fixed', 'after the race the setter returns its own argument', case, observed=obs[0])
-            else:
-                once_register(run, case, 'serde_human_readable', sets, uses + [(10 ** 18, 10 ** 18 + 1)], hr_t, False)
-        # ---- validators and comparator: exactly one setter told Ok unless a use preceded all of them
-        for which in ('name', 'namespace', 'symbol', 'field', 'comparator'):
-            if which == 'comparator':
-                ss = [e for e in evs if e['o'] == 'set_comparator']
-                us = [e for e in evs if e['o'] == 'use_comparator']
-                inforce = obs[0]['comparators_matching_probe']
-            else:
-                ss = [e for e in evs if e['o'] == 'set_validator' and e.get('which') == which]
-                us = [e for e in evs if e['o'] == 'use_validators']
-                inforce = obs[0]['validators_accepting_probe'][which]
-            if not ss:
-                if inforce:
-                    run.violation('validator-in-force-nobody-set which=%s' % which, 'a custom %s is in force although nobody registered one' % which, case, observed=inforce)
-                continue
-            oks = [e for e in ss if e['ret'] is True]
-            first_ret = min(e['t_ret'] for e in ss + us)
-            use_could_be_first = any(e['t_call'] <= first_ret for e in us)
-            if len(oks) > 1:
-                run.violation('two-setters-told-ok which=%s' % which, 'two registrations of the write-once %s both reported success' % which, case, observed=[e['t'] for e in oks])
-            elif len(oks) == 0 and not use_could_be_first:
-                run.violation('no-setter-won which=%s' % which, 'every registration failed although no use could have initialised the default first', case)
-            elif len(oks) == 1:
-                wt = oks[0]['t']
-                if inforce != [wt]:
-                    run.violation('winner-not-in-force which=%s' % which, 'thread %d was told its %s is registered, but the one in force accepts probes of %r' % (wt, which, inforce), case)
-                if oks[0]['t_call'] > first_ret:
-                    run.violation('winner-not-a-first-call which=%s' % which, 'the registration that won was invoked after another call had already returned', case)
-                winners.setdefault(which, {}).setdefault(str(wt), 0)
-                winners[which][str(wt)] += 1
-            elif inforce:
-                run.violation('validator-in-force-but-no-setter-told-ok which=%s' % which, 'a custom %s is in force, yet every registration reported failure' % which, case, observed=inforce)
-        # ---- uniformity sweep: accepted iff declared <= w
-        wlim = 2 ** 64 - 1 if out['limit_is_usize_max'] else out['limit_in_force']
-        for s in out['sweep']:
-            run.count('guard_probes')
-            g, d, r = s['guard'], s['declared'], s['r']
-            if r.startswith('panic'):
-                run.violation('guard-panics guard=%s' % g.replace('-overflow', ''), 'a guard probe panicked (%s) at limit %d' % (r, wlim), dict(case, probe=s))
-                continue
-            if g.endswith('-overflow'):
-                if r == 'ok':
-                    run.violation('overflowing-count-accepted guard=%s' % g, 'an element count whose byte size overflows was accepted', dict(case, probe=s))
-                continue
-            accepted = r != 'limit'
-            if d > 2 ** 63 - 1:
-                # no allocator can provide more than isize::MAX bytes: an error of either kind is right, only a panic is wrong
-                run.count('guard_probes_beyond_isize_max')
-                continue
-            if d <= wlim and not accepted:
-                run.violation('guard-rejects-length-within-limit guard=%s' % g, 'declared %d <= limit %d was rejected' % (d, wlim), dict(case, probe=s, limit=wlim))
-            elif d > wlim and accepted:
-                run.violation('guard-accepts-length-above-limit guard=%s' % g, 'declared %d > limit %d passed the guard (%s)' % (d, wlim, r), dict(case, probe=s, limit=wlim))
-            run.hist('guards_probed', g)
-        run.hist('limits_in_force', 'default' if wlim == DEFAULT_L else 'usize::MAX' if wlim == 2 ** 64 - 1 else str(wlim))
+        judge(run, case, out, focus, winners, 'native')
+    if (not run.quick() or os.environ.get('VERIF_SANITIZERS') == '1') and replay_case is None:
+        sanitizer_stages(run, rng, winners)
     run.cov['winning_thread_histogram'] = winners
 
 
